@@ -370,8 +370,23 @@ func (g *genCtx) genTransfer() *op {
 		to, tag = others(mainAddrs), "to-other"
 	case x < 84:
 		to, tag = others(freshAddrs), "to-fresh-key"
-	case x < 96:
+	case x < 92:
 		to, tag = g.pick(namedFresh), "to-fresh-name"
+	case x < 96:
+		// a DIFFERENT account whose name differs from an existing one only by decoration
+		// (whitespace, NUL, letter case): names are byte strings, so these are accounts of their own
+		base := by
+		if r.Intn(2) == 0 {
+			base = g.pick(mainAddrs)
+		}
+		deco := []func(string) string{
+			func(a string) string { return a + "\n" }, func(a string) string { return " " + a }, func(a string) string { return a + " " },
+			func(a string) string { return a + "\x00" }, func(a string) string { return "\t" + a + "\r\n" }, strings.ToUpper, strings.ToLower,
+		}
+		to, tag = deco[r.Intn(len(deco))](base), "to-decorated-name"
+		if to == base {
+			to += " "
+		}
 	default:
 		to, tag = "", "to-empty-name"
 	}
